@@ -121,5 +121,10 @@ def gen(tier, seed):
     add("sect", {"v": "stride"}, "do i = lo, hi\n  a2(0:2:2,i) = a2(1:3:2,i-1) + 1.0_wp\nend do")
     add("sect", {"v": "stride2"}, "do i = lo, hi\n  a2(0:2:2,i) = a2(2:4:2,i-1) + 1.0_wp\nend do")
     add("sect", {"v": "1d"}, "do i = lo, hi\n  a(1:2) = a(2:3) + b(i)\nend do")
+    # the loop variable inside the section bounds
+    for v, body in enumerate(["a(i:i+1) = b(i)", "a(2*i:2*i+1) = b(i)", "a(i:i+1) = a(i+2:i+3) + 1.0_wp",
+                              "a(2*i:2*i+1) = a(2*i+2:2*i+3) + 1.0_wp", "c(i) = a(i) + 1.0_wp\n  a(i:i+1) = b(i)",
+                              "a2(i:i+1,1) = a2(i:i+1,2)", "a2(1,i:i+1) = a2(2,i:i+1)"]):
+        add("sectvar", {"v": v}, f"do i = lo, hi\n  {body}\nend do")
     add("sect", {"v": "scalar_vs_section"}, "do i = lo, hi\n  a2(1:2,i) = a2(2,i-1) + 1.0_wp\nend do")
     return cases
